@@ -166,6 +166,10 @@ def app_frame(filename: str, i1: str, i2: str, e1: str, e2: str, ri: int, ni: in
     class Src:
         def is_app_frame(self, fn):
             return cfg.is_app_frame(fn)
+    # another configuration object in the same process (a second Deep instance, a test fixture, a reconfiguration) is asked
+    # about the same file first: the answer depends on the configuration that is asked, not on who asked before
+    other = ConfigService({"IN_APP_INCLUDE": [], "IN_APP_EXCLUDE": [], "APP_ROOT": "/zz"}, tracepoints=TracepointConfigService())
+    other.is_app_frame(filename)
     got_app, got_match = cfg.is_app_frame(filename)
     short, app2 = FrameCollector(Src(), None).parse_short_name(filename)
     world.reached()
